@@ -18,18 +18,18 @@ from vlib import refsd, spec as S
 ID = "C09"
 LEVEL = "exploration"
 TECHNIQUE = "channel x channel agreement anchored on a reference interpreter with piecewise-constant parameters; HTTP request/response recorder"
-RULE = ("seeded models (vlib.spec.Gen, depth<=2, lookups/delay/smooth/step) x run specs dt in {1,.5,.25,.1,.2} start in {0,1,2,3} with 3-7 steps; "
-        "per-step settings schedules (none / {} / constants / named points at random steps); REST partitions: all compositions of the "
-        "run into run-step / run-steps(n) / stream-steps blocks for <=5 steps (thorough) or 3 sampled (quick). distinct_nontrivial = "
+RULE = ("seeded models (vlib.spec.Gen, depth<=2, lookups/delay/smooth/step) x run specs dt in {1,.5,.25,.1,.2} start in {0,1,2,3,8,9,98} with 3-8 steps; "
+        "every fourth model is a designed look-back chain (delay / smooth of an element that is NOT among the requested equations, fed by a constant the schedule changes); per-step settings schedules (none / {} / constants / named points at random steps); REST partitions: all compositions of the "
+        "run into run-step / run-steps(n) / stream-steps blocks for <=5 steps (thorough) or 3 sampled (quick); every third case runs the REST partitions on a server with a FileAdapter and drops the instance from memory between blocks (the next request restores it from its state file). distinct_nontrivial = "
         "distinct (partition shape, settings kinds, dt) combinations in which a setting changes at least one later value "
         "and at least one requested element is not constant.")
 ASSUMPTIONS = ["a setting passed with step k holds from t_k on (the stock at t_k was integrated with the old value)",
                "run-steps(n) passes the same settings to each of its n steps; stream-steps likewise",
                "JSON numeric keys are compared as floats"]
-REQUIRED = {"python_steps": 200, "rest_requests": 300, "cells_compared": 5000, "channel_pairs": 300}
+REQUIRED = {"restores_between_blocks": 10, "lookback_cases": 5, "python_steps": 200, "rest_requests": 300, "cells_compared": 5000, "channel_pairs": 300}
 BUDGET_S = {"quick": 110, "thorough": 1500}
 
-RUNS = [("0", "1"), ("0", "0.5"), ("1", "0.25"), ("0", "0.1"), ("3", "0.5"), ("2", "0.2"), ("1", "1"), ("0", "0.25")]
+RUNS = [("0", "1"), ("0", "0.5"), ("1", "0.25"), ("0", "0.1"), ("3", "0.5"), ("2", "0.2"), ("1", "1"), ("0", "0.25"), ("8", "1"), ("9", "0.5"), ("98", "1")]   # incl. session clocks that cross 10 and 100
 
 
 def gen_cases(tier, seed):
@@ -37,13 +37,35 @@ def gen_cases(tier, seed):
     return [dict(seed=seed * 99991 + i, parts=3 if tier == "quick" else 6) for i in range(n)]
 
 
+def lookback_spec(rng, dt):
+    """A designed chain whose reported elements look BACK at an element that is not reported itself:
+    gain, base -> signal = gain*base + time ; echo = delay(signal, 2dt) ; sm = smooth(signal, T, init) ; acc' = echo"""
+    d = float(D(dt) * rng.choice([1, 2, 3]))
+    els = [dict(name="gain", kind="constant", value=rng.choice([1.0, 2.0])), dict(name="base", kind="constant", value=10.0),
+           dict(name="signal", kind="converter", eq=["bin", "+", ["bin", "*", ["ref", "gain"], ["ref", "base"]], ["time"]]),
+           dict(name="echo", kind="converter", eq=["delay", "signal", d, rng.choice([None, 1.5])])]
+    variant = rng.choice(["delay-only", "delay-only", "smooth", "stock", "all"])      # a stock (also the hidden one of smooth) evaluates its inputs eagerly
+    req = [["echo"], ["echo", "gain"], ["echo", "base"]]
+    if variant in ("smooth", "all"):
+        els.append(dict(name="sm", kind="converter", eq=["smooth", ["ref", "signal"], rng.choice([2.0, 4.0]), 5.0]))
+        req += [["sm"], ["echo", "sm"]]
+    if variant in ("stock", "all"):
+        els += [dict(name="inflow", kind="biflow", eq=["ref", "echo"]), dict(name="acc", kind="stock", init=1.0, eq=["ref", "inflow"])]
+        req += [["echo", "acc"], ["acc"]]
+    return dict(points={"dummy": [[0.0, 1.0], [10.0, 2.0]]}, elements=els, req_choices=req)
+
+
 def make(seed):
     rng = random.Random(seed)
     for attempt in range(50):
-        g = S.Gen(random.Random(rng.randrange(10 ** 9)))
-        sp = g.spec()
         start, dt = rng.choice(RUNS)
-        n = rng.randint(3, 7)
+        if seed % 4 == 3:
+            sp = lookback_spec(rng, dt)
+            n = rng.randint(5, 8)
+        else:
+            g = S.Gen(random.Random(rng.randrange(10 ** 9)))
+            sp = g.spec()
+            n = rng.randint(3, 7)
         sp["run"] = dict(start=start, stop=str(D(start) + n * D(dt)), dt=dt)
         # delays etc. were generated for another dt: regenerate until the spec is usable on this grid
         consts = [e["name"] for e in sp["elements"] if e["kind"] == "constant"]
@@ -110,7 +132,9 @@ def run_case(case):
     sp, sched, table, table0, times, kinds, rng = made
     counters = {}
     names = [e["name"] for e in sp["elements"]]
-    req = rng.sample(names, min(len(names), rng.randint(2, 4)))
+    req = rng.sample(names, min(len(names), rng.randint(2, 4))) if "req_choices" not in sp else list(rng.choice(sp["req_choices"]))
+    if "req_choices" in sp:
+        counters["lookback_cases"] = 1
     n = len(times) - 1
     start, dt = float(sp["run"]["start"]), float(sp["run"]["dt"])
     MG, SC = "smM", "base"
@@ -174,7 +198,15 @@ def run_case(case):
                         counters["channel_pairs"] = counters.get("channel_pairs", 0) + 1
         # ---- REST
         if w is None:
-            app = BptkServer(__name__, factory)
+            adapter_dir = None
+            if case["seed"] % 3 == 1:
+                # externalised server: between blocks the instance is dropped from memory, the next request restores it from its state file
+                import tempfile
+                from BPTK_Py.externalstateadapter import FileAdapter
+                adapter_dir = tempfile.mkdtemp(prefix="c09_", dir=".")
+                app = BptkServer(__name__, factory, external_state_adapter=FileAdapter(False, adapter_dir))
+            else:
+                app = BptkServer(__name__, factory)
             opened.append(app._bptk)
             client = app.test_client()
 
@@ -245,6 +277,10 @@ def run_case(case):
                             for t, v in r.get(MG, {}).get(SC, {}).get(e, {}).items():
                                 got[e][float(t)] = float(v)
                     k += size
+                    if adapter_dir is not None and rng.random() < 0.6 and iid in app._instance_manager._instances:
+                        opened.append(app._instance_manager._instances[iid]["instance"])
+                        app._instance_manager._delete_instance(iid)
+                        counters["restores_between_blocks"] = counters.get("restores_between_blocks", 0) + 1
                 if w is not None:
                     break
                 try:
@@ -324,6 +360,12 @@ def run_case(case):
         import traceback
         w = dict(kind="exception:" + type(e).__name__, error=traceback.format_exc()[-600:])
     finally:
+        try:
+            if adapter_dir is not None:
+                import shutil
+                shutil.rmtree(adapter_dir, True)
+        except NameError:
+            pass
         for b in opened:
             try:
                 b.destroy()
